@@ -385,3 +385,115 @@ Proof.
   split; [exact (reloc_rel_exact32 base asize atoff s1 e o s2 Hre Hk Ha Hf Hold)|].
   intros k Hk4. rewrite Hf in Hb. exact (Hb k Hk4).
 Qed.
+
+(* ------------------------------------------------------------------ round 5: ANY site kind of C10's JitRuntime::_add model, by what its entry is *)
+(* Stated through `site_entry` only (no constructor of C10's `site` type is named): whatever the i-th relocation site of .text is, the
+   bytes installed at its value word are the little-endian word C04's relocate_entry computed for C10's entry of that site. *)
+Theorem installed_site_word st calls base fill final img h2 i c :
+  wf_holder (jh st) -> data_len_ok (jh st) ->
+  (forall h1, flatten (jh st) = (EOk, h1) -> NoDup (map sid h1) /\ (forall s, In s h1 -> 0 <= sid s)) ->
+  jtab st <> Some 0 -> (forall h off, sites_disjoint (map (site_entry h off) calls)) ->
+  jit_add_reloc st calls base fill = (JOk, final, img, h2) ->
+  nth_error calls i = Some c ->
+  exists h1 text atoff s1 s2 o,
+    flatten (jh st) = (EOk, h1) /\ by_id h1 0 = Some text /\
+    let e := site_entry h1 (soff text) c in
+    relocate_entry base REG_SIZE atoff s1 e = inl (o, s2) /\
+    (forall k, 0 <= k < vsize (e_fmt e) -> soff text + e_off e + e_lead e + k < final ->
+       cell (flat img) (soff text + e_off e + e_lead e + k) = cell (le_bytes (Z.to_nat (vsize (e_fmt e))) (o_word o)) k).
+Proof.
+  intros Hwf Hdl Hid Htab Hcd E Hi.
+  destruct (jit_reloc_unfold st calls base fill final img h2 Hwf Hdl Hid E)
+    as (h1 & text & t & atoff & reserved & last & r & Ef & Et & Hin & Esid & Hlen & Eb & Esel & Erel & Hfit & Eh2 & Hcells).
+  set (es := map (site_entry h1 (soff text)) calls) in *.
+  assert (Ht0 : t <> 0).
+  { destruct (jtab st) as [t0|]; [destruct (by_id h1 t0); injection Esel as <- _ _ _; [congruence|lia]|injection Esel as <- _ _ _; lia]. }
+  destruct (relocate_table _ _ _ _ _ _ _ Erel) as (_ & _ & _ & Hlo).
+  assert (Hei : nth_error es i = Some (site_entry h1 (soff text) c)) by (unfold es; rewrite nth_error_map, Hi; reflexivity).
+  assert (Hoi : exists o, nth_error (rr_outs r) i = Some o).
+  { destruct (nth_error (rr_outs r) i) as [o|] eqn:Eo; [eauto|]. apply nth_error_None in Eo.
+    assert (i < length es)%nat by (apply nth_error_Some; congruence). lia. }
+  destruct Hoi as (o & Ho).
+  assert (Hwfs : forall e', In e' es -> site_wf (sdata text) e') by (apply c10_sites_wf; assumption).
+  destruct (relocated_site_bytes base REG_SIZE atoff reserved last es r (sdata text) i _ o Erel Hwfs (Hcd _ _) Hei Ho) as (PW & s1 & s2 & Hre).
+  set (text2 := set_data text (patch_all (sdata text) es (rr_outs r))).
+  assert (Hin2 : In text2 h2).
+  { rewrite Eh2. apply in_map_iff. exists text. split; [|exact Hin].
+    replace (sid text =? t) with false by (symmetry; apply Z.eqb_neq; lia).
+    replace (sid text =? 0) with true by (symmetry; apply Z.eqb_eq; exact Esid). reflexivity. }
+  destruct (Hwfs _ (nth_error_In _ _ Hei)) as (S2 & S1 & S3). unfold site_hi in S3.
+  exists h1, text, atoff, s1, s2, o. split; [exact Ef|]. split; [exact Et|]. cbv zeta. split; [exact Hre|].
+  set (e := site_entry h1 (soff text) c) in *.
+  intros k Hk Hf. specialize (Hcells text2 Hin2 (e_off e + e_lead e + k)).
+  assert (Hb2 : sbsize text2 = sbsize text) by reflexivity. assert (Ho2 : soff text2 = soff text) by reflexivity.
+  rewrite Hb2, Ho2 in Hcells. replace (soff text + (e_off e + e_lead e + k)) with (soff text + e_off e + e_lead e + k) in Hcells by lia.
+  rewrite Hcells by lia. change (sdata text2) with (patch_all (sdata text) es (rr_outs r)). exact (PW k Hk).
+Qed.
+
+(* an expression site (embed_label_delta across sections, RelocType::kExpression; C10's SExpr): when C10's entry of the i-th site is the
+   expression (pl - pb) stored as an n-byte signed value, the n installed bytes are a word that decodes (signed, n bytes) to the
+   difference of the two flattened positions, which fits the n bytes; an unbound side can not occur in a successful _add. *)
+Theorem installed_expr_site st calls base fill final img h2 i c n :
+  wf_holder (jh st) -> data_len_ok (jh st) ->
+  (forall h1, flatten (jh st) = (EOk, h1) -> NoDup (map sid h1) /\ (forall s, In s h1 -> 0 <= sid s)) ->
+  jtab st <> Some 0 -> (forall h off, sites_disjoint (map (site_entry h off) calls)) ->
+  jit_add_reloc st calls base fill = (JOk, final, img, h2) ->
+  nth_error calls i = Some c ->
+  (forall h off, exists a b, e_kind (site_entry h off c) = RExpr a b) ->
+  (forall h off, e_fmt (site_entry h off c) = sfmt n /\ e_old (site_entry h off c) = 0) -> n = 1 \/ n = 2 \/ n = 4 \/ n = 8 ->
+  exists h1 text pl pb w,
+    flatten (jh st) = (EOk, h1) /\ by_id h1 0 = Some text /\
+    let e := site_entry h1 (soff text) c in
+    e_kind e = RExpr (Some pl) (Some pb) /\
+    decode_signed (sfmt n) w = to_i64 (wrap 64 (pl - pb)) /\ - 2 ^ (8 * n - 1) <= to_i64 (wrap 64 (pl - pb)) < 2 ^ (8 * n - 1) /\
+    (forall k, 0 <= k < n -> soff text + e_off e + e_lead e + k < final ->
+       cell (flat img) (soff text + e_off e + e_lead e + k) = cell (le_bytes (Z.to_nat n) w) k).
+Proof.
+  intros Hwf Hdl Hid Htab Hcd E Hi Hkind Hfmt Hn.
+  destruct (installed_site_word st calls base fill final img h2 i c Hwf Hdl Hid Htab Hcd E Hi)
+    as (h1 & text & atoff & s1 & s2 & o & Ef & Et & Hre & Hb).
+  destruct (Hkind h1 (soff text)) as (a & b & Hk). destruct (Hfmt h1 (soff text)) as (Hf & Hold).
+  destruct a as [pl|].
+  2:{ rewrite (expr_unbound_reported base REG_SIZE atoff s1 _ None b Hk (or_introl eq_refl)) in Hre. discriminate. }
+  destruct b as [pb|].
+  2:{ rewrite (expr_unbound_reported base REG_SIZE atoff s1 _ (Some pl) None Hk (or_intror eq_refl)) in Hre. discriminate. }
+  destruct (reloc_expr_exact base REG_SIZE atoff s1 _ o s2 Hre pl pb n Hk Hf Hn Hold) as (Hd & Hr).
+  exists h1, text, pl, pb, (o_word o). split; [exact Ef|]. split; [exact Et|]. cbv zeta. split; [exact Hk|]. split; [exact Hd|]. split; [exact Hr|].
+  intros k Hkn Hfin. rewrite Hf in Hb. cbn [sfmt vsize] in Hb. exact (Hb k Hkn Hfin).
+Qed.
+
+(* an embedded label address of ANY width (RelToAbs; C10's SAbs is the 8-byte case, a 4-byte `embed_label(label, 4)` the n = 4 case):
+   when C10's entry of the i-th site is RelToAbs into a section at flattened offset toff, stored as an n-byte unsigned value, the n
+   installed bytes are base + toff + payload, little endian, and that address fits the n bytes *)
+Theorem installed_abs_entry st calls base fill final img h2 i c n :
+  wf_holder (jh st) -> data_len_ok (jh st) ->
+  (forall h1, flatten (jh st) = (EOk, h1) -> NoDup (map sid h1) /\ (forall s, In s h1 -> 0 <= sid s)) ->
+  jtab st <> Some 0 -> (forall h off, sites_disjoint (map (site_entry h off) calls)) ->
+  jit_add_reloc st calls base fill = (JOk, final, img, h2) ->
+  nth_error calls i = Some c ->
+  (forall h off, exists a, e_kind (site_entry h off c) = RRelToAbs a) ->
+  (forall h off, e_fmt (site_entry h off c) = ufmt n /\ e_old (site_entry h off c) = 0) -> n = 1 \/ n = 2 \/ n = 4 \/ n = 8 ->
+  exists h1 text toff,
+    flatten (jh st) = (EOk, h1) /\ by_id h1 0 = Some text /\
+    let e := site_entry h1 (soff text) c in
+    let w := (e_payload e + base + toff) mod 2 ^ 64 in
+    e_kind e = RRelToAbs (Some toff) /\ w < 2 ^ (8 * n) /\
+    (forall k, 0 <= k < n -> soff text + e_off e + e_lead e + k < final ->
+       cell (flat img) (soff text + e_off e + e_lead e + k) = cell (le_bytes (Z.to_nat n) w) k).
+Proof.
+  intros Hwf Hdl Hid Htab Hcd E Hi Hkind Hfmt Hn.
+  destruct (installed_site_word st calls base fill final img h2 i c Hwf Hdl Hid Htab Hcd E Hi)
+    as (h1 & text & atoff & s1 & s2 & o & Ef & Et & Hre & Hb).
+  destruct (Hkind h1 (soff text)) as (a & Hk). destruct (Hfmt h1 (soff text)) as (Hf & Hold).
+  destruct a as [toff|].
+  2:{ exfalso. unfold relocate_entry in Hre. rewrite Hk in Hre. discriminate. }
+  destruct (reloc_abs_exact base REG_SIZE atoff s1 _ o s2 Hre toff n Hk Hf Hn Hold) as (Hw & Hlt & _).
+  exists h1, text, toff. split; [exact Ef|]. split; [exact Et|]. cbv zeta. split; [exact Hk|]. rewrite <- Hw. split; [exact Hlt|].
+  intros k Hkn Hfin. rewrite Hf in Hb. cbn [ufmt vsize] in Hb. exact (Hb k Hkn Hfin).
+Qed.
+
+(* the hypotheses of installed_abs_entry hold for C10's embed_label site (n = 8) *)
+Lemma c10_abs_site_is_abs_entry pos target loff :
+  (forall h off, exists a, e_kind (site_entry h off (SAbs pos target loff)) = RRelToAbs a) /\
+  (forall h off, e_fmt (site_entry h off (SAbs pos target loff)) = ufmt 8 /\ e_old (site_entry h off (SAbs pos target loff)) = 0).
+Proof. split; intros h off; cbn [site_entry e_kind e_fmt e_old]; eauto. Qed.
